@@ -257,3 +257,32 @@ def run(ck, prog):
     ck.floor("E2a-label-decode", 1)
     ck.floor("E2a-label-table", 4)
     ck.floor("E2b-label-taint", 3)
+
+
+def predictor_delegation(ck, prog):
+    """the generic interface (api::Predictor::predict) of each naive Bayes model is the model's own predict
+    (which, for Bernoulli, includes the binarisation step) - not a shortcut to the inner distribution"""
+    rule = "E1-sibling"
+    for d in ("gaussian::GaussianNB", "multinomial::MultinomialNB", "bernoulli::BernoulliNB", "categorical::CategoricalNB"):
+        nm = d.split("::")[-1]
+        inst = f"<{nm} as Predictor>::predict delegates to {nm}::predict"
+        bs = prog.find(rf"^<naive_bayes::{d}<T, M> as api::Predictor<.*>>::predict$")
+        if len(bs) != 1:
+            ck.violation(rule, inst, d, "", expected="anchor exists", found=f"{len(bs)} bodies")
+            continue
+        b = bs[0]
+        r = Resolver(b).local(0)
+        want = f"naive_bayes::{d}::<T, M>::predict"
+        if r[0] == "call" and r[1] == want and len(r[2]) == 2 and r[2][0][0] == "arg" and r[2][0][1] == 1 and r[2][1][0] == "arg" and r[2][1][1] == 2:
+            ck.ok(rule, inst, b.path, f"{b.loc[0]}:{b.loc[1]}", render(r))
+        else:
+            ck.violation(rule, inst, b.path, f"{b.loc[0]}:{b.loc[1]}", expected=f"return {want}(self, x)", found=f"returns `{render(r)[:120]}`")
+
+
+_run_c11 = run
+
+
+def run(ck, prog):
+    _run_c11(ck, prog)
+    predictor_delegation(ck, prog)
+    ck.floor("E1-sibling", 4)
